@@ -1,7 +1,31 @@
-(** C10 - placeholder while the correspondence is validated *)
-From Verif Require Import Lib.Base Lib.Json Model.KeyId Model.UAgent Model.Shim Model.ShimSpec Model.ShimCheck
-  Model.C07Check Model.C09Check Model.C10Check Generated.ShimGen.
+(** C10 - hardware certificates are bound to a held key; everything else
+    passes through intact; failures of the underlying agent are errors and
+    discard nothing that is still valid.
 
+    Model: [Model.Shim] over [Model.UAgent] (the underlying agent behind a
+    frame proxy that, for request number n, injects the fault [script n]:
+    failure reply, malformed reply, reply of another type, oversized length
+    prefix, closed connection - instead of or after executing the request).
+    Theorems without a hypothesis on [script] hold for EVERY fault script;
+    "healthy agent" statements carry [forall n, script n = None] and [live s]
+    (the connection works).  [Inv] is the state invariant of C07; [wf_info]:
+    the key a certificate is over is a plain-key blob. *)
+From Verif Require Import Lib.Base Lib.Json Model.KeyId Model.UAgent Model.Shim Model.ShimSpec Model.ShimCheck
+  Model.C07Check Model.C09Check Model.C10Check Generated.ShimGen Proofs.ShimProofs Proofs.ShimFilterProofs
+  Proofs.ShimInvProofs Proofs.ShimExactProofs Proofs.ShimC07Proofs Proofs.ShimSpecProofs Proofs.ShimC09Proofs
+  Proofs.ShimC10Proofs Proofs.ShimC10Oracle.
+
+(** ** What the source looks like *)
+
+(** s.certs is written by s.remove (delete), AddHardCert (set) and RemoveAll
+    (reset) only - in particular not by SignWithFlags or filter's callers;
+    AddHardCert accepts on [bytes.Equal(<agent identity>.Marshal(), <certificate>.Key.Marshal())]
+    inside a loop over the agent's current list and on nothing else;
+    SignWithFlags answers an in-memory certificate by a bare
+    [return s.agent.SignWithFlags(<cert>.Key, data, flags)]; Forward is a framed
+    write followed by a framed read; New hands a construction error back; the
+    x/crypto client is wrapped so that its panics on unexpected reply types
+    become errors; the frame bound is 16 MiB, strict, in both directions. *)
 Theorem c10_source_shape :
   certs_writes = [ (tx "remove", (tx "delete", false)); (tx "AddHardCert", (tx "set", false)); (tx "RemoveAll", (tx "reset", false)) ] /\
   addhard_loop = (tx "range", [tx "elem=certkey"]) /\
@@ -10,3 +34,250 @@ Theorem c10_source_shape :
   read_bound_is_strict_gt = true /\ write_bound_is_strict_gt = true /\ max_agent_response_bytes = 16777216%N.
 Proof. repeat split; reflexivity. Qed.
 Print Assumptions c10_source_shape.
+
+(** ** Hardware certificates *)
+
+(** Healthy agent: accepted iff already held, or a certificate whose public
+    key the agent currently lists. *)
+Theorem c10_addhard_iff : forall info script, (forall n, script n = None) ->
+  forall now s key, live s -> Inv info s -> locked s = false ->
+  (snd (step info script now s (AddHardCert key)) = ROk <->
+   In key (mem s) \/ (is_cert info key = true /\ In (pubkey_of info key) (reported (ua s)))).
+Proof. exact addhard_iff. Qed.
+Print Assumptions c10_addhard_iff.
+
+(** Any fault script: acceptance implies the condition (an answer that was
+    tampered with is never taken for the agent's list); the agent's identities
+    are untouched; memory changes only by gaining that certificate. *)
+Theorem c10_addhard_any : forall info script now s key,
+  locked s = false ->
+  let '(s', r) := step info script now s (AddHardCert key) in
+  ids (ua s') = ids (ua s) /\
+  match r with
+  | ROk => (In key (mem s) \/ (is_cert info key = true /\ In (pubkey_of info key) (reported (ua s)))) /\
+           mem s' = (if mem_b key (mem s) then mem s else mem s ++ [key])
+  | RErr _ => mem s' = mem s
+  | _ => False
+  end.
+Proof. exact addhard_any. Qed.
+Print Assumptions c10_addhard_any.
+
+Theorem c10_idempotent : forall info script now s key,
+  locked s = false -> In key (mem s) -> step info script now s (AddHardCert key) = (s, ROk).
+Proof. exact addhard_again. Qed.
+Print Assumptions c10_idempotent.
+
+Theorem c10_held_once : forall info script now s key,
+  NoDup (mem s) -> locked s = false -> snd (step info script now s (AddHardCert key)) = ROk ->
+  In key (mem (fst (step info script now s (AddHardCert key)))) /\
+  NoDup (mem (fst (step info script now s (AddHardCert key)))).
+Proof. exact addhard_once. Qed.
+Print Assumptions c10_held_once.
+
+(** It is then listed (List and Signers answer exactly [listing_of], which
+    starts with the kept in-memory certificates - c07_list_exact) and signing
+    with it yields a signature that verifies under the certificate's key. *)
+Theorem c10_listed_signs : forall info script, (forall n, script n = None) -> wf_info info ->
+  forall now s key data flags,
+  live s -> Inv info s -> locked s = false ->
+  In key (filter (keeps info now (reported (ua s))) (mem s)) ->
+  In (pubkey_of info key) (reported (ua s)) ->
+  In key (listing_of info now s) /\
+  snd (step info script now s (Sign key data flags)) = RSig (pubkey_of info key) data flags.
+Proof.
+  intros info script Hnf Hwf now s key data flags Hlv HI Hlk Hk Hp. split.
+  - unfold listing_of. apply in_or_app. left. exact Hk.
+  - exact (sign_in_memory info script Hnf Hwf now s key data flags Hlv HI Hlk Hk Hp).
+Qed.
+Print Assumptions c10_listed_signs.
+
+(** Whatever the agent does, a signature that comes back verifies under the
+    public key of the identity that was asked for, over the data and flags
+    that were asked for. *)
+Theorem c10_signature_key : forall info script now s key data flags,
+  wf_info info ->
+  match snd (step info script now s (Sign key data flags)) with
+  | RSig k d f => k = pubkey_of info key /\ d = data /\ f = flags
+  | RErr _ => True
+  | _ => False
+  end.
+Proof. exact sign_any. Qed.
+Print Assumptions c10_signature_key.
+
+(** Remove / RemoveAll make it disappear, whatever the agent answers. *)
+Theorem c10_removed : forall info script now s key,
+  locked s = false ->
+  ~ In key (mem (fst (step info script now s (Remove key)))) /\ mem (fst (step info script now s RemoveAll)) = [].
+Proof. exact removed. Qed.
+Print Assumptions c10_removed.
+
+(** ** Pass-through *)
+
+(** Healthy agent: the model refines the loop-free specification - List /
+    Signers / Sign / Add / Remove / RemoveAll / Lock / Unlock have exactly the
+    effect on the agent's identities that [spec_step] spells out (add: append
+    unless held; remove: filter out; remove-all: empty), and the listing is the
+    kept in-memory certificates followed by every valid, visible identity of
+    the agent, each once, blobs unchanged. *)
+Theorem c10_refines_spec : forall info script, (forall n, script n = None) ->
+  forall now s o, Inv info s ->
+  vs_of (fst (step info script now s o)) = fst (spec_step info now (vs_of s) o) /\
+  snd (step info script now s o) = snd (spec_step info now (vs_of s) o).
+Proof. exact step_spec. Qed.
+Print Assumptions c10_refines_spec.
+
+(** Any fault script: listings invent nothing and list what stays in memory. *)
+Theorem c10_list_any : forall info script now s,
+  Inv info s -> locked s = false ->
+  let '(s', r) := step info script now s List_ in
+  match r with
+  | RList l => (forall b, In b l -> In b (mem s') \/ In b (ids (ua s))) /\ (forall b, In b (mem s') -> In b l)
+  | RErr _ => True
+  | _ => False
+  end.
+Proof. exact list_any. Qed.
+Print Assumptions c10_list_any.
+
+Theorem c10_signers_any : forall info script now s,
+  Inv info s ->
+  let '(s', r) := step info script now s Signers in
+  match r with
+  | RSigners l => (forall b, In b l -> In b (mem s') \/ In b (ids (ua s))) /\ (forall b, In b (mem s') -> In b l)
+  | RErr _ => True
+  | _ => False
+  end.
+Proof. exact signers_any. Qed.
+Print Assumptions c10_signers_any.
+
+(** Any fault script: an acknowledged Add had exactly the agent's effect;
+    Remove takes the key out of memory and fails only if it was not there;
+    RemoveAll empties memory, and the agent too when acknowledged. *)
+Theorem c10_add_any : forall info script now s b,
+  locked s = false ->
+  let '(s', r) := step info script now s (Add b) in
+  mem s' = mem s /\
+  match r with
+  | ROk => ids (ua s') = (if mem_b b (ids (ua s)) then ids (ua s) else ids (ua s) ++ [b])
+  | RErr _ => True
+  | _ => False
+  end.
+Proof. exact add_any. Qed.
+Print Assumptions c10_add_any.
+
+Theorem c10_remove_any : forall info script now s key,
+  locked s = false ->
+  let '(s', r) := step info script now s (Remove key) in
+  mem s' = remove_blob key (mem s) /\
+  match r with ROk => True | RErr _ => ~ In key (mem s) | _ => False end.
+Proof. exact remove_any. Qed.
+Print Assumptions c10_remove_any.
+
+Theorem c10_remove_all_any : forall info script now s,
+  locked s = false ->
+  let '(s', r) := step info script now s RemoveAll in
+  mem s' = [] /\ match r with ROk => ids (ua s') = [] | RErr _ => True | _ => False end.
+Proof. exact remove_all_any. Qed.
+Print Assumptions c10_remove_all_any.
+
+(** ** Raw requests *)
+Theorem c10_forward : forall info script now s raw len rlen,
+  let '(s', r) := step info script now s (Forward raw len rlen) in
+  mem s' = mem s /\ ids (ua s') = ids (ua s) /\
+  if (max_frame <? len)%N then (exists e, r = RErr e) /\ s' = s
+  else match r with
+       | RRaw x => x = raw /\ rawlog (ua s') = rawlog (ua s) ++ [raw] /\ (max_frame <? rlen)%N = false
+       | RRawInjected _ => exists n, script n <> None
+       | RErr _ => True
+       | _ => False
+       end.
+Proof. exact forward_any. Qed.
+Print Assumptions c10_forward.
+
+Theorem c10_forward_relays : forall info script, (forall n, script n = None) ->
+  forall now s raw len rlen,
+  live s -> (max_frame <? len)%N = false -> (max_frame <? rlen)%N = false ->
+  let '(s', r) := step info script now s (Forward raw len rlen) in
+  r = RRaw raw /\ rawlog (ua s') = rawlog (ua s) ++ [raw] /\ mem s' = mem s /\ ids (ua s') = ids (ua s).
+Proof. exact forward_relays. Qed.
+Print Assumptions c10_forward_relays.
+
+Theorem c10_frame_bound : max_frame = 16777216%N.
+Proof. reflexivity. Qed.
+Print Assumptions c10_frame_bound.
+
+(** ** Failures *)
+
+(** Whatever the agent does (every fault script, every operation): an
+    in-memory certificate that is inside its window and backed by what the
+    agent reports survives, unless the operation removes it explicitly. *)
+Theorem c10_fault_survive : forall info script now s o c,
+  In c (mem s) -> keeps info now (reported (ua s)) c = true -> targeted o c = false ->
+  In c (mem (fst (step info script now s o))).
+Proof. exact step_survive. Qed.
+Print Assumptions c10_fault_survive.
+
+(** [step] is a total function into replies: every operation under every
+    fault script returns a reply (an error or a result), never a crash; for
+    construction the crash is an explicit outcome of the model and is excluded
+    by the regenerated fact that New hands the error back. *)
+Theorem c10_construct_total : forall info script nu u,
+  new_returns_construct_error = true -> exists r, construct info script nu u = Val r.
+Proof. exact construct_total. Qed.
+Print Assumptions c10_construct_total.
+
+Theorem c10_construct_inv : forall info script nu u s,
+  NoDup (ids u) -> construct info script nu u = Val (Some s) -> Inv info s.
+Proof. exact construct_inv. Qed.
+Print Assumptions c10_construct_inv.
+
+(** ** All histories, every fault script: the oracle evaluated on the
+    implementation accepts every history of the model from every state
+    satisfying the invariant.  [ff = true] (the clauses about a healthy agent
+    are switched on) needs a fault-free script. *)
+Theorem c10_histories : forall info script ff,
+  (ff = true -> forall n, script n = None) -> wf_info info ->
+  forall s h, Inv info s -> oracle info ff (noup s) (obs_of s) (model_steps info script s h) = true.
+Proof. exact oracle_model. Qed.
+Print Assumptions c10_histories.
+
+(** ** Non-vacuity *)
+(** Keys 1 (RSA), 2; certificate 30 over key 1, 31 over key 2 (not held),
+    32 over key 1 but expired; 33 = a certificate over key 2 held by the agent. *)
+Definition ex_info (b : N) : option cinfo :=
+  match b with
+  | 30%N => Some (mkCI 1 0 18446744073709551615 None)
+  | 31%N => Some (mkCI 2 0 18446744073709551615 None)
+  | 32%N => Some (mkCI 1 0 50 None)
+  | 33%N => Some (mkCI 2 0 18446744073709551615 None)
+  | _ => None
+  end.
+Definition ex_nofault : nat -> option fault := fun _ => None.
+(** request 3 (the sign request of the 4th operation) gets a failure reply;
+    request 5 (the raw request) is executed and then the connection is closed *)
+Definition ex_faulty (n : nat) : option fault :=
+  match n with 3%nat => Some (mkFault false FFail) | 5%nat => Some (mkFault true FClose) | _ => None end.
+Definition ex_s0 : shim := init_shim false (start_agent [1; 33]%N).
+Definition ex_hist : list (Z * op) :=
+  [ (100%Z, AddHardCert 30%N); (100%Z, AddHardCert 31%N); (100%Z, AddHardCert 1%N); (100%Z, Sign 30%N 7%N 2%N);
+    (100%Z, AddHardCert 30%N); (100%Z, List_); (100%Z, Forward 9%N 4%N 3%N); (100%Z, Remove 30%N); (100%Z, List_) ].
+(** 31 is refused although the agent holds a certificate (33) over the same key *)
+Example c10_ex_healthy :
+  snd (run ex_info ex_nofault ex_s0 ex_hist) =
+  [ ROk; RErr EKeyNotFound; RErr EOther; RSig 1%N 7%N 2%N; ROk; RList [30; 1; 33]%N; RRaw 9%N; ROk; RList [1; 33]%N ].
+Proof. vm_compute. reflexivity. Qed.
+(** the same history with a failing agent: errors, and certificate 30 is
+    still held after the failed sign *)
+Example c10_ex_faulty :
+  let '(s, rs) := run ex_info ex_faulty ex_s0 ex_hist in
+  (rs, mem s, alive (ua s)) =
+  ([ ROk; RErr EKeyNotFound; RErr EOther; RErr EOther; ROk; RList [30; 1; 33]%N; RErr EOther; ROk; RErr EOther ],
+   [], false).
+Proof. vm_compute. reflexivity. Qed.
+Example c10_ex_survives :
+  mem (run_state ex_info ex_faulty ex_s0 (firstn 7 ex_hist)) = [30%N].
+Proof. vm_compute. reflexivity. Qed.
+Example c10_ex_construct_fails :
+  construct ex_info (fun n => match n with O => Some (mkFault false FClose) | _ => None end) true (start_agent [1]%N) = Val None /\
+  construct ex_info (fun n => match n with O => Some (mkFault false FClose) | _ => None end) false (start_agent [1]%N)
+    = Val (Some (init_shim false (start_agent [1]%N))).
+Proof. vm_compute. split; reflexivity. Qed.
